@@ -535,3 +535,29 @@ theorem refPre_mono_le (env : Env) {m m' : Nat} (hle : m ≤ m') (q input)
   · next p hp => simp only [hp] at h; exact refQ_mono_le env hle _ _ _ _ h
 
 end Liquer
+
+namespace Liquer
+
+/-- non-empty extra parameters make a successful result of an action volatile -/
+theorem refAction_extra_volatile (env : Env) (n : Nat) (st : EState) (a : Action) (raw parent : Str) (extra : Extra)
+    (s : EState) (h : (refAction env n st a raw parent extra).1 = .st s) (hs : s.isError = false)
+    (hx : extra.isEmpty = false) : s.volatile = true := by
+  cases n with
+  | zero => simp [refAction_zero] at h
+  | succ n =>
+    rw [refAction_succ] at h
+    split at h
+    · simp at h
+    · split at h
+      · simp at h
+      · split at h
+        · simp only [Outcome.st.injEq] at h; subst h; simp [failSt] at hs
+        · next sig hr =>
+          have hni := refParams_inr_not_st env n a.params raw parent s
+          generalize refParams env n a.params raw parent = x at h hni
+          rcases x with ⟨r, c1⟩
+          cases r with
+          | inr o => simp only at h; subst h; simp at hni
+          | inl g => exact refCall_xv_volatile env n st a raw sig _ s h hs (applyExtra_of_not_isEmpty hx g)
+
+end Liquer
